@@ -179,7 +179,7 @@ package render
 //@ loop 1 invariant fresh: fresh(vars)
 
 // ---- locations of render nodes (promoted Token methods) --------------------------------
-//@ globalinv render.invalidLoc: self == box(mk$render.invalidLocation(), render.invalidLocation)
+//@ globalinv render.invalidLoc: is(self, render.invalidLocation)
 //@ typeinv render.TagNode: true
 //@ typeinv render.BlockNode: true
 //@ typeinv render.TextNode: true
